@@ -279,7 +279,9 @@ class Evaluator:
             lv = self.ev(p['left'])
             rv = self.ev(p['right'])
             if self.pure_literal(lv) and self.pure_literal(rv):
-                return ('pure', op, lv, rv)
+                # `x in <primitive>` / `x instanceof <primitive>` throw a TypeError: that is an effect with a position
+                if not self.decide(('in-or-instanceof', str(op)), z3.Or(op == 21, op == 22)):
+                    return ('pure', op, lv, rv)
             return self.event('binop', op, lv, rv)
         if op in LOGICAL:
             return self.logical(LOGICAL[op], p)
@@ -289,8 +291,9 @@ class Evaluator:
             return ('nullishp', lv) if op == 0 else ('not-nullishp', lv)
         lv = self.ev(p['left'])
         rv = self.ev(p['right'])
-        if self.pure_literal(lv) and self.pure_literal(rv):
-            # operators on literals are side-effect free: a value, not an event
+        if self.pure_literal(lv) and self.pure_literal(rv) and op not in (21, 22):
+            # operators on literals are side-effect free: a value, not an event -- except `in` / `instanceof`, which throw a
+            # TypeError on a primitive right operand (an effect with a position)
             return ('pure', op, lv, rv)
         return self.event('binop', op, lv, rv)
 
